@@ -113,7 +113,7 @@ def extract(config, no_cache=False, log=None):
     os.makedirs(CACHE, exist_ok=True)
     did = driver_id()
     th = tree_hash(REPO, extra=[did])
-    sub = config + "-v3"    # v2: the derive crate is extracted with the library
+    sub = config + "-v4"    # v2: the derive crate is extracted with the library
     if config == "probe":
         sub = "probe-" + tree_hash(os.path.join(VERIF, "probe"))[:16]
     dest = os.path.join(CACHE, th[:32], sub)
